@@ -173,6 +173,42 @@ def rule_clock(program, ctx, prop=P, rid="C18.clock"):
                     ctx.bad(finding_at(prop, rid, c, f"RateLimiter.{name} reads `{full}` directly instead of the limiter's monotonic _timestamp()"))
 
 
+def rule_pruned(program, ctx, prop=P, rid="C18.pruned"):
+    ctx.rule(
+        rid,
+        "the per-address history is pruned on every evaluation: in RateLimiter.evaluate_rules no `return` is reachable with a non-empty history unless the path went through the "
+        "statement that drops the entries older than the longest interval (`timestamps.pop()` loop / `clear()`) - is_limited records every admission, so a fast path that "
+        "returns early (e.g. for exempt `-1` rules) lets the history of the busiest addresses grow with the connection's lifetime",
+        floor=1,
+    )
+    fn = program.cls("nostr_relay.rate_limiter:RateLimiter").methods.get("evaluate_rules")
+    if fn is None:
+        raise AnalysisError("RateLimiter.evaluate_rules not found")
+    cfg = cfg_of(fn)
+    hist = fn.args.args[2].arg if len(fn.args.args) > 2 else "timestamps"
+    prune = cfg.stmt_nodes(lambda s: any(isinstance(c.func, ast.Attribute) and c.func.attr in ("pop", "clear", "popleft") and dotted(c.func.value) == hist for c in own_calls(s)), kinds=("stmt",))
+    loops = [n for n, d in cfg.g.nodes(data=True) if d["kind"] == "loop" and isinstance(d["ast"], ast.While) and any(n2 in prune for n2 in cfg.reach(list(cfg.succ(n, kinds={"t"})), kinds=NORMAL))]
+    if not prune:
+        ctx.bad(finding_func(prop, rid, fn, "evaluate_rules no longer prunes the history", text="def evaluate_rules(...) :: prune"))
+        return
+
+    def empty(expr, pol):
+        return (isinstance(expr, ast.Name) and expr.id == hist and not pol) or (isinstance(expr, ast.UnaryOp) and isinstance(expr.op, ast.Not) and isinstance(expr.operand, ast.Name) and expr.operand.id == hist and pol)
+
+    passes = test_edges(cfg, empty)
+    for n in prune + loops:
+        passes[n] = set(NORMAL)
+    rets = cfg.stmt_nodes(lambda s: isinstance(s, ast.Return), kinds=("stmt",)) + [cfg.exit]
+    for r in rets:
+        path = must_pass(cfg, passes, [r])
+        if path:
+            st = cfg.ast_of(r) or fn
+            ctx.bad(finding_at(prop, rid, st, "evaluate_rules can return with a non-empty history that was not pruned on this call: entries older than every interval accumulate",
+                               path=cfg.describe_path(path)[-4:], text="return without pruning"))
+            return
+    ctx.ok(rid, fn, "every return with a non-empty history follows the pruning")
+
+
 def rule_key(program, ctx, prop=P, rid="C18.key"):
     ctx.rule(
         rid,
@@ -544,6 +580,7 @@ def run(program, ctx):
     rule_awaited(program, ctx, P, ANCHORS)
     rule_consulted(program, ctx)
     rule_key(program, ctx)
+    rule_pruned(program, ctx)
     rule_clock(program, ctx)
     rule_counted_once(program, ctx)
     rule_record(program, ctx)
